@@ -981,13 +981,25 @@ func (ch *Chain) CancelWithRcode(rcode int, do bool) {
 		}
 	}
 	m := new(dns.Msg)
-	m.Extra = req.Extra
 	m.SetRcode(req, rcode)
 	m.RecursionAvailable = true
 	m.RecursionDesired = true
 
-	if opt := m.IsEdns0(); opt != nil {
+	// The reply's OPT is the server's, not an echo of the client's. Some
+	// callers sit in front of the edns middleware and write to the bare
+	// writer, so nothing downstream would take the client's subnet,
+	// padding or unknown options back out: only a COOKIE survives — the
+	// BADCOOKIE caller has already put the server cookie in it. Other
+	// additional records a query may have carried are not echoed either.
+	if ropt := req.IsEdns0(); ropt != nil {
+		opt := &dns.OPT{Hdr: ropt.Hdr}
+		for _, o := range ropt.Option {
+			if o.Option() == dns.EDNS0COOKIE {
+				opt.Option = append(opt.Option, o)
+			}
+		}
 		opt.SetDo(do)
+		m.Extra = []dns.RR{opt}
 	}
 
 	_ = ch.Writer.WriteMsg(m)
